@@ -45,12 +45,13 @@ EXPLANATION = ("Theorems about the fuelled heap model of Annotable.__deepcopy__ 
                "none left half-built), copy_fresh, copy_memo_injective, copy_no_write (+ _deep, _scoped), copy_disjoint / "
                "copy_shares_only_preseeded / deep_copy_shares_nothing, frame_interleaved_history (any interleaving of later "
                "source-side and copy-side overwrites and allocations: each side ends as if the other side's writes had not happened), "
+               "bound_annotation_follows (in the FINAL state the copy of an attribute-bound annotation is bound to a memo-image of "
+               "the source's owner and to the same attribute: the `_value` exemption of copy_iso_partial lifted), "
                "frame_source_history, frame_source_write / frame_copy_write, fuel_mono / fuel_result_unique, route_spec / "
                "route_no_write / route_shares_only_preseeded, extract_leaves, extract_suppresses, extract_nosup_attrs, "
                "extract_sup_labels, extract_sup_pathsums (root-to-leaf length sums survive suppression). NOT PROVED (correspondence "
                "and oracle only): membership and order of annotation sets, attribute order, functionality of the memo "
-               "(copy_iso_partial); the final-state form of 'bound annotations of the copy are bound to the copy' "
-               "(retarget_step_partial is one step); the label match of the other-namespace pre-seeding (computed by the harness); "
+               "(copy_iso_partial); the label match of the other-namespace pre-seeding (computed by the harness); "
                "shallow routes (never sent to the model). frame_copy_history and the one-step corollaries carry no content beyond "
                "copy_no_write*.")
 
@@ -1560,6 +1561,17 @@ def wellformed_problem(objs):
             t = d["target"]
             if t[0] == "r" and objs[t[1]][0] == "S":
                 return "annotation set %d has an annotation set as target" % i
+        if len(d) != len(fs):
+            return "object %d has a repeated attribute name" % i
+        if d.get("is_attribute") == ("a", "True"):
+            # hypotheses of bound_annotation_follows: not an annotation set, `_value` a two-element tuple (ref owner, atom name)
+            v = d.get("_value")
+            ok = kind != "S" and v is not None and v[0] == "r"
+            if ok:
+                tk, tc, tfs = objs[v[1]]
+                ok = tk == "T" and [n for n, _ in tfs] == ["#0", "#1"] and tfs[0][1][0] == "r" and tfs[1][1][0] == "a"
+            if not ok:
+                return "bound annotation %d whose _value is not an (owner, attribute name) tuple" % i
         if kind in ("A", "X", "N"):
             a = d.get("_annotations")
             if a is not None and a[0] == "r":
@@ -1626,7 +1638,7 @@ def gen_spec(rng, quick):
 def run(ctx):
     dendropy = __import__("dendropy")
     rng = ctx.rng
-    ctx.set_budget(35, 600)
+    ctx.set_budget(30, 600)
     pending = []
     quick = ctx.tier != "thorough"
     # the recursion-depth probe (known-finding candidate): a caterpillar deeper than the interpreter can deep-copy
